@@ -279,7 +279,7 @@ def model_loc(case, obs):
         if body_ok:
             return "bodyDone"
         if kill.get("started"):
-            return "body:0" if "start" not in obs["bodylog"] else f"body:{len(obs['bodylog'])}"
+            return "callBody" if "start" not in obs["bodylog"] else f"body:{len(obs['bodylog'])}"
         if not _has(pre, "is_file", name=".done"):
             return "locked"
         if _has(pre, "is_file", name=".done", res=True):
@@ -349,7 +349,7 @@ def monitors(ctx, case, obs):
     if not r["dir"]["done"] or (r["ran"] == 1 and not r["completed"]):
         ctx.monitor_fail("relaunch-not-done", f"[{tag}] the undisturbed relaunch did not end with a success marker: {r}", rcase)
     # 4. SIGTERM/SIGINT received while the body runs leaves a failure marker and no success marker
-    if sig in ("term", "int") and (case.get("bodykill") or obs.get("in_body")):
+    if sig in ("term", "int") and case.get("bodykill"):
         if d["failed"] is None or d["done"]:
             ctx.monitor_fail("signal-in-body-markers", f"[{tag}] termination signal while the body ran left {d}", rcase)
         if obs["rc"] in (0, None):
@@ -384,14 +384,6 @@ def baseline(ctx, tpl):
     return cases, obs
 
 
-def in_body_frame(obs):
-    """the signal was delivered while the frame of the body wrapper `run(parameters)` was active"""
-    k = obs["kill"]
-    return bool(k and k.get("started") and k.get("in_try") and "handle_error" not in (k.get("stack") or [])
-                and sum(1 for e in obs["pre"] if e["ev"] == "sig-restore") == 0 and len(k.get("stack") or []) >= 2
-                and k.get("func") == (k.get("stack") or [None])[0] and (k.get("stack") or [])[0] != "rmfile")
-
-
 def evaluate(ctx, tpl, cases, unreg, with_model=True):
     obs = run_all(ctx, tpl, cases)
     lines, idx = [], []
@@ -402,7 +394,6 @@ def evaluate(ctx, tpl, cases, unreg, with_model=True):
             # the k-th line was never reached (shorter path): nothing was delivered
             ctx.count("skipped", "line-not-reached")
             continue
-        o["in_body"] = in_body_frame(o)
         monitors(ctx, c, o)
         loc = model_loc(c, o) if c["sig"] != "none" else None
         c = dict(c, loc=loc)
